@@ -231,6 +231,9 @@ pub enum Step {
     },
     /// serde representation check
     Serde { text: TextRef, reader: Bk, artifact: Artifact },
+    /// the artifact's form in a serde format that is not human readable (a binary format), offered
+    /// to the deserialiser of another (backend, kind)
+    SerdeCross { text: TextRef, reader: Bk, artifact: Artifact },
     /// evaluate a validator expression directly on claims (optionally through `map`) at a node clock
     Validate { validator: VSpec, claims: RegSpec, now_ns: Ns, mapped: bool },
     /// payload codec checks (C14)
@@ -256,6 +259,12 @@ pub enum CodecCase {
     },
     /// Json<Value> as payload and footer is transparent over serde_json
     JsonTransparent { value: serde_json::Value },
+    /// a value whose Serialize impl fails after part of it was written (a map with non-string keys
+    /// behind a few ordinary members): the encode must fail, and nothing of it may show up in any
+    /// later encode on this thread
+    FailingEncode { footer: bool, filler: usize },
+    /// an application payload that flattens RegisteredClaims next to a catch-all map of its own claims
+    Flatten { claims: RegSpec, extra: serde_json::Value },
 }
 
 #[derive(Clone, Copy, Debug, PartialEq, Eq, PartialOrd, Ord, Serialize, Deserialize)]
@@ -314,6 +323,7 @@ impl Step {
             Step::BlobInject { .. } => "BlobInject",
             Step::Offer { .. } => "Offer",
             Step::Serde { .. } => "Serde",
+            Step::SerdeCross { .. } => "SerdeCross",
             Step::Validate { .. } => "Validate",
             Step::Codec { .. } => "Codec",
             Step::Threads { .. } => "Threads",
